@@ -2,3 +2,5 @@ pub mod c07;
 pub mod c11;
 pub mod c12;
 pub mod c15;
+pub mod c13;
+pub mod c14;
